@@ -172,6 +172,9 @@ func registerModelNatives(p *Program) {
 		r.callFunction(g, g.top, fn, []Value{name, uint64(0o755)})
 		return name
 	}
+	N[rtPkg+".SetProcs"] = func(r *Run, g *Goroutine, a []Value) Value {
+		return N[rtPkg+".SetParam"](r, g, []Value{"numcpu", a[0]})
+	}
 	N[rtPkg+".SetParam"] = func(r *Run, g *Goroutine, a []Value) Value {
 		if r.ownParams == false {
 			np := map[string]int{}
@@ -187,6 +190,7 @@ func registerModelNatives(p *Program) {
 
 	p.initOverride["errors"] = nil // only errorType (reflectlite) and ErrUnsupported
 	p.initOverride["os"] = p.funcByFullName(modelPkg + ".InitOS")
+	p.initOverride["strconv"] = p.funcByFullName(modelPkg + ".InitStrconv")
 	for _, path := range []string{
 		"io", "bytes", "bufio", "sort", "strings", "context", "io/fs", "internal/oserror",
 		"encoding/binary", "container/list", "path/filepath", "path", "hash", "math/bits", "io/ioutil",
